@@ -31,7 +31,16 @@ var replSeeds = []replSeed{
 	{"divergent", []string{"T:1", "run", "block:1:2", "block:1:3", "update:1", "run", "disc", "T:2", "run", "update:2", "run:4", "heal:1:2", "heal:1:3"}},
 }
 
+// a leader about to be re-elected: n1 led term 2, accepted a client update (index 3) that reached nobody and stepped
+// down; n2 leads term 3 and its no-op has replaced that entry on n1, which does not know yet that it is committed;
+// whatever n1's leader state kept from term 2 meets its next term
+var replSeedReelect = replSeed{"reelect", []string{"T:1", "run", "block:1:2", "block:1:3", "update:1", "run", "heal:1:2", "heal:1:3", "disc",
+	"elect:2", "heal:2:3", `ev:{"k":"RS","n":1,"f":1}`, "deliver:1", `ev:{"k":"RR","n":1,"f":1}`}}
+
 func replSeedByName(name string) replSeed {
+	if name == "reelect" {
+		return replSeedReelect
+	}
 	for _, s := range replSeeds {
 		if s.name == name {
 			return s
@@ -100,6 +109,8 @@ func init() {
 	for _, s := range replSeeds {
 		simScenarios["repl-"+s.name] = scenRepl(s, 2, true, 1, 1, 4)
 	}
+	simScenarios["repl-reelect"] = scenRepl(replSeedReelect, 2, false, 0, 0, 5)
+	simScenarios["repl-reelect"].Menu = simMenu{OrderCost: true, Timeouts: true, MaxTerm: 5, Drops: true}
 	c02 := &simCheckSpec{Prop: "C02", Oracles: []string{"commit", "leader"},
 		Scenarios: func(t string) []*simScenario {
 			// focused scenarios first (small fault alphabets that complete their bound quickly), then the broad ones
@@ -122,6 +133,13 @@ func init() {
 	// C03 also covers restart / snapshot restore / snapshot installation: two snapshot seeds are added
 	withSnap := func(t string, eagerFSM bool, dev int) []*simScenario {
 		out := append([]*simScenario{scenFigure8Net(t)}, replScenarios(t, eagerFSM)...)
+		if !eagerFSM {
+			// C03 only: the FSM goroutine is fed from the leader's queue of client entries as well as from the log
+			re := scenRepl(replSeedReelect, dev, eagerFSM, 0, 0, 5)
+			re.Menu = simMenu{OrderCost: true, Timeouts: true, MaxTerm: 5, Drops: true}
+			re.MaxDev = dev + 1
+			out = append([]*simScenario{re}, out...)
+		}
 		out = append(out, scenSnap(snapSeeds[snapSeedIndex("divergent")], dev, eagerFSM, false, 1), scenSnap(snapSeeds[snapSeedIndex("lagging")], dev, eagerFSM, true, 1))
 		return out
 	}
